@@ -467,7 +467,7 @@ def all_combinations(manager, bins1, bins2, table=None):
         def run():
             return [([num(s) for s in y], None) for y in b.all_combinations(a1, a2)]
         return guarded(run)
-    b = prtpy.BinnerKeepingContents(table.__getitem__)
+    b = prtpy.BinnerKeepingContents(table.__getitem__) if table is not None else prtpy.BinnerKeepingContents()
 
     def build(lists):
         arr = b.new_bins(len(lists))
